@@ -301,7 +301,8 @@ func send(c *Ctx, cl *world.Client, u *Up) world.Res {
 // presence observes whether digest (hash,size) is present, three ways.
 type presence struct {
 	fmb, head, file bool
-	files           int // files named for the hash, whatever their size
+	files           int  // files named for the hash, whatever their size
+	byHash          bool // an entry for the hash is indexed, whatever its size
 }
 
 func (p presence) any() bool { return p.fmb || p.head || p.file }
@@ -316,6 +317,7 @@ func observePresence(cl *world.Client, hash string, size int64) presence {
 	o := world.Observe(cl.N)
 	e := o.Find("cas/" + hash)
 	p.file = e != nil && e.Size == size
+	p.byHash = e != nil
 	p.files = len(filesFor(cl.N, hash))
 	return p
 }
@@ -555,10 +557,11 @@ func judgeUpload(c *Ctx, cl *world.Client, cfg world.NodeCfg, u *Up, before pres
 		}
 	}
 	matches := world.HashOf(u.Payload) == u.DeclHash && int64(len(u.Payload)) == u.DeclSize && u.Fault == UFNone
-	if (u.Path == WPFetch || u.Path == WPFetchNoCL) && u.DeclHash == world.EmptySha256 {
+	if (u.Path == WPFetch || u.Path == WPFetchNoCL) && (u.DeclHash == world.EmptySha256 || before.byHash) {
 		// FetchBlob carries a checksum but no size: "already in the CAS" is
-		// decided by hash alone, and the empty blob is always there
-		c.S.Probe("fetch_with_checksum_of_the_empty_blob")
+		// decided by hash alone (the empty blob is always there; one-byte
+		// blobs of different uploads may coincide)
+		c.S.Probe("fetch_with_checksum_of_a_present_blob")
 		return
 	}
 	if before.any() {
